@@ -820,6 +820,14 @@ func (a *nilAn) mayNil(v ssa.Value, use ssa.Instruction, seen map[ssa.Value]bool
 			for _, ref := range *p.Referrers() {
 				if st, ok := ref.(*ssa.Store); ok && st.Addr == ssa.Value(p) {
 					if r := a.mayNil(st.Val, st, seen); r != "" {
+						// `v, err := f()` into a local whose address is taken: the value is stored
+						// before err is tested; what counts is what is known where it is loaded —
+						// provided this store is the only one and comes before the load
+						if use != nil && a.b.instrDominates(st, use) && singleStore(p) {
+							if ok, _ := a.guardedNonNil(st.Val, use); ok {
+								continue
+							}
+						}
 						return "local: " + r
 					}
 				}
@@ -1108,3 +1116,14 @@ func (a *nilAn) summaryStrings() (derefs, retnil, preds []string) {
 }
 
 func joinShort(ss []string) string { return strings.Join(ss, ", ") }
+
+// singleStore: the local is assigned exactly once.
+func singleStore(al *ssa.Alloc) bool {
+	n := 0
+	for _, ref := range *al.Referrers() {
+		if st, ok := ref.(*ssa.Store); ok && st.Addr == ssa.Value(al) {
+			n++
+		}
+	}
+	return n == 1
+}
